@@ -6,6 +6,7 @@ package main
 // heights, equal PEG requests in the bank era.
 
 import (
+	"github.com/pegnet/pegnetd/node"
 	"fmt"
 	"io/ioutil"
 	"os"
@@ -71,6 +72,21 @@ func scenReplayMP(rep *Report, tier string, seed int64) {
 				b.FCT = append(b.FCT, Burn(h, g.Users[i].FA(), 4e14, i))
 			}
 			b.FCT = append(b.FCT, Burn(h, g.Users[4].FA(), 1.5e14+7, 9))
+		}
+		// transfers to the global burn address before its activation (an ordinary recipient then),
+		// after it, and after the point where the two-session replay changes process: whether an
+		// output is burned depends on the height of the batch alone, never on what the process
+		// has seen before
+		if h == a.V202-5 || h == a.V202+5 || h == a.PIP10+25 || h == a.PIP10+31 {
+			burnA, _ := factomFA(node.GlobalBurnAddress)
+			u := g.Users[5]
+			for _, t := range []fat2.PTicker{fat2.PTickerFCT, fat2.PTickerPEG} {
+				if bal := w.Balance(u.FA(), t); bal > 1000 {
+					b.TX = append(b.TX, g.Batch(h, u, []fat2.Transaction{Transfer(u.FA(), t, fat2.AddressAmountTuple{Address: burnA, Amount: bal / 100}, fat2.AddressAmountTuple{Address: g.Users[0].FA(), Amount: 7})}))
+					rep.Count("replay:transfer-to-burn-address")
+					break
+				}
+			}
 		}
 		// equal PEG requests in the bank era (same amounts, different entries)
 		if h == a.ConvLimit+1 || h == a.V4+1 {
